@@ -12,11 +12,11 @@ Open Scope Z_scope.
 Ltac bridge := intros; cbv beta delta [gen_getattr_source gen_get_field_parses_buffer gen_getitem_indexes_buffer
   gen_getitem_indexes_overlay gen_getitem_indexes_cache gen_getitem_scalar_row gen_itemgetter_getitem_resets_start_line
   gen_replace_into_overlay gen_replace_new_overrides_old gen_replace_keeps_cache gen_data_object_reads_all_fields_in_order
-  gen_concat_stays_lazy gen_concat_requires_all_lazy gen_concat_column_source gen_concat_set_key gen_concat_cache_key
+  gen_concat_stays_lazy gen_concat_requires_all_lazy gen_concat_fallback_materialises_lazy_only gen_concat_column_source gen_concat_set_key gen_concat_cache_key
   gen_get_buffer_path gen_write_column_source gen_write_columns_in_field_order gen_should_be_lazy
   m_getattr_source m_get_field_parses_buffer m_getitem_indexes_buffer m_getitem_indexes_overlay m_getitem_indexes_cache
   m_getitem_scalar_row m_itemgetter_getitem_resets_start_line m_replace_into_overlay m_replace_new_overrides_old
-  m_replace_keeps_cache m_data_object_reads_all_fields_in_order m_concat_stays_lazy m_concat_requires_all_lazy
+  m_replace_keeps_cache m_data_object_reads_all_fields_in_order m_concat_stays_lazy m_concat_requires_all_lazy m_concat_fallback_materialises_lazy_only
   m_concat_column_source m_concat_set_key m_concat_cache_key m_get_buffer_path m_write_column_source
   m_write_columns_in_field_order m_should_be_lazy] zeta;
   repeat match goal with b : bool |- _ => destruct b end; reflexivity.
@@ -38,9 +38,11 @@ Lemma b_replace :
 Proof. repeat split; bridge. Qed.
 Lemma b_data_object : gen_data_object_reads_all_fields_in_order = m_data_object_reads_all_fields_in_order.
 Proof. bridge. Qed.
-Lemma b_concat_path : forall a, gen_concat_stays_lazy a = m_concat_stays_lazy a.
+Lemma b_concat_path : forall a b, gen_concat_stays_lazy a b = m_concat_stays_lazy a b.
 Proof. bridge. Qed.
 Lemma b_concat_requires_all_lazy : gen_concat_requires_all_lazy = m_concat_requires_all_lazy.
+Proof. bridge. Qed.
+Lemma b_concat_fallback : gen_concat_fallback_materialises_lazy_only = m_concat_fallback_materialises_lazy_only.
 Proof. bridge. Qed.
 Lemma b_concat_column_source : forall a b, gen_concat_column_source a b = m_concat_column_source a b.
 Proof. bridge. Qed.
@@ -137,18 +139,43 @@ Proof.
 Qed.
 Lemma all_lazy_map ls : all_lazy (map TLazy ls) = Some ls.
 Proof. induction ls as [|l ls IH]; simpl; [reflexivity|]. rewrite IH. reflexivity. Qed.
+Definition is_lazy (t : table) : bool := match t with TLazy _ => true | TEager _ => false end.
+Lemma all_lazy_is ts : forallb is_lazy ts = match all_lazy ts with Some _ => true | None => false end.
+Proof. induction ts as [|[l|t] ts IH]; simpl; [reflexivity| |reflexivity]. rewrite IH. destruct (all_lazy ts); reflexivity. Qed.
+(* the current concatenate (t_concat6, after fix-5): lazy result iff every operand is lazy and the class has `concatenate`;
+   otherwise the data objects — of the lazy operands only, the materialised ones as they are — are concatenated *)
 Lemma s_t_concat : forall cc F ls, ls <> [] ->
-  t_concat cc F (map TLazy ls) =
-  if m_concat_stays_lazy (f_concat F) then option_map TLazy (cc F ls)
+  t_concat6 cc F (map TLazy ls) =
+  if m_concat_stays_lazy (forallb is_lazy (map TLazy ls)) (f_concat F) then option_map TLazy (cc F ls)
   else if forallb (fun l => fst (l_fill F (all_fields F) l)) ls then Some (TEager (concat (map (l_rows F) ls))) else None.
 Proof.
-  intros cc F ls H. unfold t_concat, m_concat_stays_lazy. destruct ls as [|l ls]; [contradiction|].
+  intros cc F ls H. rewrite all_lazy_is. unfold t_concat6, m_concat_stays_lazy. destruct ls as [|l ls]; [contradiction|].
   change (map TLazy (l :: ls)) with (TLazy l :: map TLazy ls) at 1.
   cbv iota. rewrite (all_lazy_map (l :: ls)). reflexivity.
 Qed.
-Lemma s_t_concat_mixed : forall cc F l t ts,
-  m_concat_requires_all_lazy = true -> t_concat cc F (TLazy l :: TEager t :: ts) = None /\ t_concat cc F (TEager t :: TLazy l :: ts) = None.
-Proof. intros. split; reflexivity. Qed.
+Lemma s_t_concat_mixed : forall cc F ts,
+  ts <> [] -> forallb is_lazy ts = false ->
+  m_concat_stays_lazy (forallb is_lazy ts) (f_concat F) = false
+  /\ t_concat6 cc F ts =
+     (if negb m_concat_requires_all_lazy && m_concat_fallback_materialises_lazy_only
+      then (if forallb (t_fill_ok F) ts then Some (TEager (concat (map (t_rows F) ts))) else None) else None).
+Proof.
+  intros cc F ts Hne H. rewrite H. split; [reflexivity|]. rewrite all_lazy_is in H.
+  unfold t_concat6. destruct ts as [|t ts]; [contradiction|]. destruct (all_lazy (t :: ts)); [discriminate|]. reflexivity.
+Qed.
+(* the write after fix-4: header, nothing more for an empty table, else pass-through or the joined text columns *)
+Lemma s_l_write6 : forall F hdr l,
+  l_buf l <> [] ->
+  l_write6 F hdr l = hdr ++
+    match m_get_buffer_path true false false (match l_set l with [] => false | _ => true end) true true with
+    | 2 => concat (map r_raw (l_buf l))
+    | 4 => concat (map (join_fields (f_layout F)) (rows_of_cols [] (length (l_buf l)) (map (text_col F l) (all_fields F))))
+    | _ => []
+    end.
+Proof.
+  intros F hdr l Hb. unfold l_write6. destruct (l_buf l) eqn:E; [contradiction|].
+  destruct (l_set l); reflexivity.
+Qed.
 (* get_buffer on a buffer class with text access, no SKIP_LAZY, writing to the same class, modified writes supported *)
 Lemma s_l_write : forall F hdr l,
   l_buf l <> [] -> existsb (fun f => existsb (Nat.eqb f) (f_nowrite F)) (keys (l_set l)) = false ->
@@ -174,3 +201,31 @@ Proof. intros. unfold text_col, m_write_column_source, has, col_of. destruct (lo
 Lemma s_should_be_lazy : forall cfg,
   m_should_be_lazy cfg false false true true false = true /\ m_should_be_lazy cfg false true true true false = false.
 Proof. intros. destruct cfg; split; reflexivity. Qed.
+
+(* ---------- round 6, part 2: sort_by ---------- *)
+Lemma b_sort_by :
+  gen_sort_by_key_through_getattr = m_sort_by_key_through_getattr /\ gen_sort_by_text_key_bytewise = m_sort_by_text_key_bytewise
+  /\ gen_sort_by_stable = m_sort_by_stable /\ gen_sort_by_indexes_self = m_sort_by_indexes_self.
+Proof. repeat split. Qed.
+(* the model's sort_by on a lazy table: the key through l_get (= __getattr__: overlay, cache, else parse AND cache), the
+   stable argsort of it, then l_index (= __getitem__) on the table that now holds the cached key *)
+Lemma s_sort_by : forall cc F hdr l f,
+  m_sort_by_key_through_getattr && m_sort_by_stable && m_sort_by_indexes_self = true ->
+  m_xstep cc F hdr [TLazy l] (XSortBy 0 f) =
+  match l_get F f l with
+  | Some (c, l') => ([TLazy (l_index (argsort c) l')], XOk)
+  | None => ([TLazy l], XErr)
+  end.
+Proof. intros. cbn [m_xstep nth_error]. destruct (l_get F f l) as [[c l']|]; reflexivity. Qed.
+(* bytewise order of text keys: a proper prefix first, else the first differing byte decides *)
+Lemma s_text_key_order : forall a b x y,
+  m_sort_by_text_key_bytewise = true ->
+  lex_leb [] b = true /\ lex_leb (x :: a) [] = false
+  /\ (x < y -> lex_leb (x :: a) (y :: b) = true) /\ (y < x -> lex_leb (x :: a) (y :: b) = false)
+  /\ lex_leb (x :: a) (x :: b) = lex_leb a b.
+Proof.
+  intros a b x y _. repeat split; try reflexivity.
+  - intros H. simpl. apply Z.ltb_lt in H. rewrite H. reflexivity.
+  - intros H. simpl. assert (x <? y = false) by (apply Z.ltb_ge; lia). rewrite H0. apply Z.ltb_lt in H. rewrite H. reflexivity.
+  - simpl. rewrite Z.ltb_irrefl. reflexivity.
+Qed.
